@@ -42,6 +42,14 @@ type csvImport struct {
 	Csv       string   `json:"csv"`
 	FailAfter int      `json:"fail_after"`
 	Types     []string `json:"types"`
+	// when set, the configuration is built by the real makeConfig from these flag values
+	// (-dest-cols, -src-cols) instead of directly
+	Flags *csvFlags `json:"flags,omitempty"`
+}
+
+type csvFlags struct {
+	Dst string `json:"dst"`
+	Src string `json:"src"`
 }
 
 type csvCase struct {
@@ -240,8 +248,26 @@ func init() {
 				}
 				// (2) configuration
 				cfg := importCfg{db: db, dstCols: im.Dst, separator: sep, srcCols: im.Src, table: table}
+				if im.Flags != nil {
+					*cfgDb, *cfgTable, *cfgSep = db, table, im.Sep
+					*cfgDestCols, *cfgSrcCols = im.Flags.Dst, im.Flags.Src
+					mc, err := makeConfig(rm)
+					if err != nil {
+						o.CfgRoute = "makeconfig:err"
+						o.ColTypes = []int{}
+						if o.Table, err = csvDumpTable(rm, table); err != nil {
+							return fmt.Errorf("select: %v", err)
+						}
+						outs = append(outs, o)
+						continue
+					}
+					cfg = mc
+					o.CfgRoute = "makeconfig"
+				}
 				types, err := colDataTypes(rm, table, im.Dst)
-				if err == nil && types != nil {
+				if im.Flags != nil {
+					// cfg.colTypes as makeConfig left them
+				} else if err == nil && types != nil {
 					cfg.colTypes = types
 					o.CfgRoute = "catalog"
 				} else {
